@@ -6,8 +6,12 @@ from gen import *
 from unparse import unparse, strip_marks
 
 
+EDGE = [('edge:only-function-definitions', 'function f(a) -> a + 1; function g() -> f(1)'), ('edge:empty-program', ''), ('edge:comment-only', '/* nothing */ // at all\n'),
+        ('edge:ends-with-function', 'print("a\\n"); function f() -> 1'), ('edge:null-only', 'null'), ('edge:begin-end', 'begin end')]
+
+
 def corpus():
-    return [{'name': 'corpus:' + n, 'text': t, 'ast': None} for n, t in corpus_sources()]
+    return [{'name': 'corpus:' + n, 'text': t, 'ast': None} for n, t in corpus_sources()] + [{'name': n, 'text': t, 'ast': None} for n, t in EDGE]
 
 
 def random_programs(n, base_seed=None, size=30, fault_rate=0.03, tag='gen'):
@@ -145,5 +149,6 @@ def big_programs():
     P = [('big:300-prints', '; '.join('print("line %d of a program whose image is larger than the reader buffers: ~\\n", %d)' % (i, i) for i in range(300))),
          ('big:long-strings', '; '.join('print("%s\\n")' % (chr(97 + i % 26) * (3000 + 37 * i)) for i in range(8))),
          ('big:many-functions', '; '.join('function f%d(a, b) -> begin let t = a * %d + b; if t > 3 then print("f%d ~\\n", t) else t end' % (i, i, i) for i in range(150)) + '; ' + '; '.join('f%d(%d, 1)' % (i, i) for i in range(150))),
+         ('big:utf8-4k-boundaries', '; '.join('print("%s%s\\n")' % ('a' * k, ch * n) for k, ch, n in [(1, 'é', 4500), (0, '世', 3000), (1, '世', 3000), (2, '世', 3000), (1, '😀', 2300), (3, '😀', 2300)])),
          ('big:utf8-strings', '; '.join('print("%s ~\\n", %d)' % ('é世😀' * (40 + i), i) for i in range(60)))]
     return [{'name': n, 'text': t, 'ast': None} for n, t in P]
